@@ -294,7 +294,7 @@ class CProgram:
         self.entities = []
 
 
-def c_program(rng, nfn=6, nvar=5, kernel_exports=None):
+def c_program(rng, nfn=6, nvar=5, kernel_exports=None, traps=False):
     """Two translation units, one compiled with -g and one without.  Functions and variables with external, weak and
     static linkage, default / hidden / protected visibility, alias declarations (also of static definitions, also weak),
     groups of functions with identical bodies (so that identical-code folding puts several DIEs on one address)."""
@@ -316,6 +316,14 @@ def c_program(rng, nfn=6, nvar=5, kernel_exports=None):
                 extra = rng.choice(["", "", ", weak", ", visibility(\"hidden\")"])
                 lines.append("extern __typeof(%s) %s __attribute__((alias(\"%s\")%s));" % (name, an, name, extra))
                 p.entities.append({"tu": tu, "kind": "fn-alias", "name": an, "of": name, "extra": extra})
+        # functions the optimizer reduces to nothing: size 0, so that they share their address with each other and with the next function,
+        # each with a DIE of its own (needs no identical-code folding; at -O0 they are ordinary functions)
+        for i in range(rng.choice([0, 0, 1, 2, 3]) if traps else 0):
+            name = "%s_t%d" % (tu, i)
+            link = rng.choice(["", "", "__attribute__((weak)) "])
+            lines.append("%svoid %s(void) { __builtin_unreachable(); }" % (link, name))
+            p.entities.append({"tu": tu, "kind": "fn", "name": name, "link": link.strip(), "vis": "", "body": -1})
+            uses.append("(long)&%s" % name)
         for i in range(nvar):
             name = "%s_v%d" % (tu, i)
             tls = rng.random() < 0.15
@@ -346,7 +354,7 @@ def c_program(rng, nfn=6, nvar=5, kernel_exports=None):
     return p
 
 
-C_KINDS = ("rel", "dso-bfd", "dso-lld", "dso-lld-icf", "exec", "exec-lld-icf", "pie")
+C_KINDS = ("rel", "dso-bfd", "dso-lld", "dso-lld-icf", "dso-gold-icf", "exec", "exec-lld-icf", "pie")     # gold keeps the DIEs of folded functions valid (lld tombstones them)
 
 
 def build_c(prog, workdir, stem, cc="gcc", opt="-O0", dwarf="-gdwarf-4", kinds=C_KINDS, fcommon=False):
@@ -389,6 +397,8 @@ def build_c(prog, workdir, stem, cc="gcc", opt="-O0", dwarf="-gdwarf-4", kinds=C
         link("dso-lld-icf", ["-shared", "-fuse-ld=lld", "-Wl,--icf=all"], P(".icf.so"), "pic")
     if "exec" in kinds:
         link("exec", ["-no-pie", "-static", "-fuse-ld=bfd"], P(".exe"), "nopic")
+    if "dso-gold-icf" in kinds:
+        link("dso-gold-icf", ["-shared", "-fuse-ld=gold", "-Wl,--icf=all"], P(".gicf.so"), "pic")
     if "exec-lld-icf" in kinds:
         link("exec-lld-icf", ["-no-pie", "-static", "-fuse-ld=lld", "-Wl,--icf=all"], P(".icf.exe"), "nopic")
     if "pie" in kinds:
